@@ -1,0 +1,93 @@
+//go:build verif
+
+package ucfg
+
+import (
+	"fmt"
+	"strconv"
+)
+
+// VerifNode is a structural dump of one value stored in a Config tree. It is
+// compiled with the build tag "verif" only and exists for external
+// verification tooling: it exposes what has no public accessor (node identity,
+// the stored parent link and field name, unresolved expressions) without
+// evaluating anything.
+type VerifNode struct {
+	ID     string // identity: address of the *Config (objects) or of the value object (primitives)
+	Kind   string // sub, nil, bool, int, uint, float, string, dyn
+	Field  string // ctx.field as stored
+	Parent string // identity of the Config stored as ctx.parent, "" if none
+	Value  string // primitives: their value; dyn: the unresolved expression
+	Source string // metadata source, "" if none
+	Dict   map[string]*VerifNode
+	Arr    []*VerifNode
+}
+
+// VerifFingerprint dumps the tree below c.
+func VerifFingerprint(c *Config) *VerifNode {
+	if c == nil {
+		return nil
+	}
+	return verifSub(c)
+}
+
+func verifParent(ctx context) string {
+	if p := ctx.getParent(); p != nil {
+		return fmt.Sprintf("%p", p)
+	}
+	if ctx.parent != nil {
+		return "non-config"
+	}
+	return ""
+}
+
+func verifSource(m *Meta) string {
+	if m == nil {
+		return ""
+	}
+	return m.Source
+}
+
+func verifSub(c *Config) *VerifNode {
+	n := &VerifNode{ID: fmt.Sprintf("%p", c), Kind: "sub", Field: c.ctx.field, Parent: verifParent(c.ctx), Source: verifSource(c.metadata)}
+	if c.fields == nil {
+		return n
+	}
+	if d := c.fields.dict(); len(d) > 0 {
+		n.Dict = make(map[string]*VerifNode, len(d))
+		for k, v := range d {
+			n.Dict[k] = verifValue(v)
+		}
+	}
+	for _, v := range c.fields.array() {
+		n.Arr = append(n.Arr, verifValue(v))
+	}
+	return n
+}
+
+func verifValue(v value) *VerifNode {
+	prim := func(kind, val string, p *cfgPrimitive, id interface{}) *VerifNode {
+		return &VerifNode{ID: fmt.Sprintf("%p", id), Kind: kind, Field: p.ctx.field, Parent: verifParent(p.ctx), Value: val, Source: verifSource(p.metadata)}
+	}
+	switch x := v.(type) {
+	case nil:
+		return nil
+	case cfgSub:
+		return verifSub(x.c)
+	case *cfgNil:
+		return prim("nil", "", &x.cfgPrimitive, x)
+	case *cfgBool:
+		return prim("bool", strconv.FormatBool(x.b), &x.cfgPrimitive, x)
+	case *cfgInt:
+		return prim("int", strconv.FormatInt(x.i, 10), &x.cfgPrimitive, x)
+	case *cfgUint:
+		return prim("uint", strconv.FormatUint(x.u, 10), &x.cfgPrimitive, x)
+	case *cfgFloat:
+		return prim("float", strconv.FormatFloat(x.f, 'g', -1, 64), &x.cfgPrimitive, x)
+	case *cfgString:
+		return prim("string", x.s, &x.cfgPrimitive, x)
+	case *cfgDynamic:
+		return prim("dyn", x.dyn.String(), &x.cfgPrimitive, x)
+	}
+	return &VerifNode{Kind: fmt.Sprintf("%T", v)}
+}
